@@ -1137,7 +1137,7 @@ pub fn gen_value(d: &Desc, rng: &mut Rng, budget: usize) -> Value {
         }
         Desc::Vec { elem, len } => {
             let es = elem.size().max(1);
-            let maxn = (budget / es).min(len.max_usize()).min(300);
+            let maxn = (budget / es).min(len.max_usize()).min(if elem.size() == 0 { ZST_READ_CAP } else { 300 });
             let n = match rng.below(6) {
                 0 => 0,
                 1 => 1.min(maxn),
